@@ -38,7 +38,7 @@ def engine_cfg(N, maxw, configs, intr=False, spawn=False, instart=False, mode=PO
     return "\n".join(lines) + "\n"
 
 
-def run_engine_mc(res, variants, timeout=1500):
+def run_engine_mc(res, variants, timeout=5400):
     """variants: list of dicts of engine_cfg kwargs. Adds states/transitions to res.coverage and
     returns the list of (variant, TlcRun)."""
     out = []
